@@ -24,7 +24,7 @@ def run(ck):
     r = ck.run_tlc(["ckpt", "tick"], "Checkpoint", "Checkpoint_q.cfg" if q else "Checkpoint_t.cfg", workers=8 if q else 16, timeout=3000)
     if not r.ok:
         raise core.Broken("Checkpoint.tla violates %s %s" % (r.violated, r.error))
-    for neg in ("Checkpoint_neg_timeorder.cfg", "Checkpoint_neg_noguard.cfg"):
+    for neg in ("Checkpoint_neg_timeorder.cfg", "Checkpoint_neg_noguard.cfg", "Checkpoint_neg_noseq.cfg"):
         n = ck.run_tlc(["ckpt", "tick"], "Checkpoint", neg, workers=4, timeout=900)
         if n.ok:
             raise core.Broken("negative control %s was accepted: the model cannot see a wrong restore" % neg)
@@ -35,7 +35,7 @@ def run(ck):
     binary = ck.binary("tick")
     d = core.scratch("c06-")
     path = os.path.join(d, "spliced.ndjson")
-    out = core.harness(binary, "ckpt_cuts", dict(seed=ck.seed, systems=systems, random=5 if q else 400, mem=4 if q else 300,
+    out = core.harness(binary, "ckpt_cuts", dict(seed=ck.seed, systems=systems, random=5 if q else 400, mem=4 if q else 300, collide=6 if q else 200,
                                                  max_cuts=4 if q else 0, trace_out=path), timeout=3000)
     ck.cov["traces_validated_against_impl"] += out["cuts"]
     ck.cov["evaluations"] += out["events"]
